@@ -326,7 +326,7 @@ func runC15(c *Ctx) {
 	for _, cf := range closure {
 		inClosure[cf.Key] = cf
 	}
-	c.floor("secret-set", "serialised fields in GameState's type closure", len(closure), 40)
+	c.floor("secret-set", "serialised fields in GameState's type closure", len(closure), 30)
 	cardBearing := map[string]bool{}
 	for k := range taint {
 		if _, ok := inClosure[k]; ok {
@@ -398,7 +398,9 @@ func runC15(c *Ctx) {
 		}
 		s := newSumm(p, 1)
 		viewFn := fn
-		s.HelperInline = func(f *ssa.Function) bool { return privateHelper(viewFn, f) && len(findLoops(f)) == 0 }
+		// helpers are read where they are called, the ones that hold the loop over the players too
+		// (their parameters stand for the arguments of the call: a seat to skip, a flag)
+		s.HelperInline = func(f *ssa.Function) bool { return privateHelper(viewFn, f) }
 		paths, cut := s.Function(fn)
 		if cut != "" {
 			c.undecided("redaction", fnKey(fn), p.FnPos(fn), "summary cut: "+cut)
@@ -438,11 +440,66 @@ func runC15(c *Ctx) {
 			c.check(len(bad) == 0, "redaction", fnKey(fn)+"#table:"+f, p.FnPos(fn), fmt.Sprintf("overwritten with a fresh empty value on all %d paths", len(paths)), "a table-level secret survives", uniq(bad, 3)...)
 		}
 		// per-player secrets
-		loops := s.loops(fn)
-		bodyOf := map[*Loop][]*PathSum{}
-		for _, l := range loops {
-			bp, _ := s.LoopBody(fn, l)
-			bodyOf[l] = bp
+		// the body of a loop met on a path: for a loop of a helper, re-read with the arguments the
+		// helper was entered with, infeasible rows (a flag parameter that is a constant) dropped
+		var allBodies [][]*PathSum
+		bodyOn := func(ps *PathSum, idx int) []*PathSum {
+			e := ps.Events[idx]
+			raw, _ := s.LoopBody(e.InFn, e.Loop)
+			if e.InFn == fn {
+				return raw
+			}
+			var en *Event
+			for _, x := range ps.Events[:idx] {
+				if x.Kind == "enter" && x.Fn == e.InFn {
+					en = x
+				}
+			}
+			if en == nil {
+				return raw
+			}
+			m := map[string]*Val{}
+			for i, prm := range e.InFn.Params {
+				if i < len(en.Args) && en.Args[i] != nil && en.Args[i].String() != "param:"+prm.Name() {
+					m["param:"+prm.Name()] = en.Args[i]
+				}
+			}
+			var out []*PathSum
+			for _, bp := range raw {
+				np := instPath(bp, m)
+				np = resolvePredicateParams(p, s, np, e.InFn, en, fn)
+				feasible := true
+				for _, cd := range np.Conds {
+					if cd.V.K == KAtom && cd.V.At.Op == "b" {
+						if (cd.V.At.L == "true" && cd.V.Neg) || (cd.V.At.L == "false" && !cd.V.Neg) {
+							feasible = false
+						}
+					}
+					if cd.V.K == KConst && ((cd.V.S == "true" && cd.V.Neg) || (cd.V.S == "false" && !cd.V.Neg)) {
+						feasible = false
+					}
+				}
+				if feasible {
+					out = append(out, np)
+				}
+			}
+			return out
+		}
+		seenBody := map[string]bool{}
+		for _, ps := range paths {
+			for i, e := range ps.Events {
+				if e.Kind == "loop" {
+					b := bodyOn(ps, i)
+					key := fmt.Sprint(e.Loop.Header.Index, "@", fnKey(e.InFn), "/", len(b))
+					for _, q := range b {
+						key += "|" + q.CondString()
+					}
+					if !seenBody[key] {
+						seenBody[key] = true
+						allBodies = append(allBodies, b)
+					}
+				}
+			}
 		}
 		for sec := range playerSecrets {
 			_, f := splitLoc(sec)
@@ -454,15 +511,15 @@ func runC15(c *Ctx) {
 					nPaths++
 					fnClosed := hasCond(ps, isClosed)
 					// the player loops on this path
-					var pl []*Loop
-					for _, e := range ps.Events {
+					var pl [][]*PathSum
+					for i, e := range ps.Events {
 						if e.Kind == "loop" {
 							ri := analyseRange(e.Loop)
 							if loadsField(ri.Coll, "pokerface.GameState.Players") {
 								if !ri.Full || len(e.Loop.Exits) != 1 {
 									bad = append(bad, "the loop over the players can stop early or skips elements")
 								}
-								pl = append(pl, e.Loop)
+								pl = append(pl, bodyOn(ps, i))
 							}
 						}
 					}
@@ -473,9 +530,9 @@ func runC15(c *Ctx) {
 					// some loop on the path must redact on every body path (or be exempt)
 					okLoop := false
 					var why []string
-					for _, l := range pl {
-						allBody := true
-						for _, bp := range bodyOf[l] {
+					for _, lb := range pl {
+						allBody := len(lb) > 0
+						for _, bp := range lb {
 							if bp.End != "continue" {
 								allBody = false
 								why = append(why, "body path ends with "+bp.End)
@@ -522,8 +579,8 @@ func runC15(c *Ctx) {
 				badW = append(badW, "writes "+k+" which is not a secret")
 			}
 		}
-		for _, l := range loops {
-			for _, bp := range bodyOf[l] {
+		for _, lb := range allBodies {
+			for _, bp := range lb {
 				isViewer := viewer != "" && hasCond(bp, func(v *Val) bool {
 					return v.K == KAtom && v.At.Op == "eq" && !v.Neg && strings.Contains(v.At.A.String(), ".Idx") && strings.Contains(v.At.A.String(), viewer)
 				})
@@ -559,7 +616,7 @@ func runC15(c *Ctx) {
 			n++
 		}
 	}
-	c.floor("redaction", "redaction obligations", n, 8)
+	c.floor("redaction", "redaction obligations", n, 6)
 	_ = sort.Strings
 }
 
@@ -575,4 +632,87 @@ func isEmptyVal(v *Val) bool {
 		return true
 	}
 	return false
+}
+
+// resolvePredicateParams: a body row of helper h may branch on a predicate it was handed as a
+// function value (isViewer(p)). When the argument at the call en is a closure of view whose single
+// path returns a comparison or a constant, the branch is re-read as that comparison, the closure's
+// parameter standing for the predicate's argument and a captured variable of view for view's
+// parameter of the same name.
+func resolvePredicateParams(p *Prog, s *Summ, row *PathSum, h *ssa.Function, en *Event, view *ssa.Function) *PathSum {
+	call, ok := en.Instr.(ssa.CallInstruction)
+	if !ok {
+		return row
+	}
+	args := call.Common().Args
+	changed := false
+	np := *row
+	np.Conds = append([]Cond(nil), row.Conds...)
+	for ci, cd := range np.Conds {
+		if cd.V.K != KAtom || cd.V.At.Op != "b" || !strings.HasPrefix(cd.V.At.L, "dynamic:") {
+			continue
+		}
+		rest := strings.TrimPrefix(cd.V.At.L, "dynamic:")
+		open := strings.Index(rest, "(")
+		if open < 0 || !strings.HasSuffix(rest, ")") {
+			continue
+		}
+		name, arg := rest[:open], rest[open+1:len(rest)-1]
+		var clo *ssa.MakeClosure
+		var plain *ssa.Function
+		for i, prm := range h.Params {
+			if prm.Name() == name && i < len(args) {
+				switch x := args[i].(type) {
+				case *ssa.MakeClosure:
+					clo = x
+				case *ssa.Function:
+					plain = x
+				}
+			}
+		}
+		var cf *ssa.Function
+		if clo != nil {
+			cf, _ = clo.Fn.(*ssa.Function)
+		} else {
+			cf = plain
+		}
+		if cf == nil || len(cf.Params) != 1 || len(cf.Blocks) == 0 {
+			continue
+		}
+		cs := newSumm(p, 0)
+		cp, cut := cs.Function(cf)
+		if cut != "" || len(cp) != 1 || len(cp[0].Ret) != 1 || len(cp[0].Events) != 0 {
+			continue
+		}
+		rv := cp[0].Ret[0]
+		m := map[string]*Val{"param:" + cf.Params[0].Name(): vAff(affTerm(arg))}
+		for _, fv := range cf.FreeVars {
+			for _, vp := range view.Params {
+				if vp.Name() == fv.Name() {
+					m["free:"+fv.Name()] = vAff(affTerm("param:" + vp.Name()))
+				}
+			}
+		}
+		var nv *Val
+		switch {
+		case rv.K == KConst && (rv.S == "true" || rv.S == "false"):
+			c2 := *rv
+			nv = &c2
+		case rv.K == KAtom:
+			nv = substVal(rv, m)
+			c2 := *nv
+			nv = &c2
+		default:
+			continue
+		}
+		if cd.V.Neg {
+			nv.Neg = !nv.Neg
+		}
+		np.Conds[ci].V = nv
+		changed = true
+	}
+	if !changed {
+		return row
+	}
+	return &np
 }
